@@ -19,7 +19,7 @@ PID = 'C15'
 RULE = ('frames over sub-domains D1 all-numeric (int/uint/float widths), D2 all-bool, D3 bool mixed with numeric (axis 0 only), D4 str/datetime/object columns (axis 0; min/max/all/any) '
         'x all layouts x {sum, prod, min, max, mean, median, std, var(ddof 0..2), all, any, loc_min/max, iloc_min/max, cumsum, cumprod} x axis x skipna, incl. 0- and 1-sized axes; '
         'non-trivial = >= 2 blocks of different dtype, or a missing cell with skipna=False')
-ASSUMPTIONS = ['tolerance: exact for int/bool results, 1e-12 relative for float64, 1e-5 when a float32/float16 column is involved',
+ASSUMPTIONS = ['for float16/float32 lines a result equal to the float64 evaluation of the line is accepted as well as the narrow-dtype NumPy result', 'tolerance: exact for int/bool results, 1e-12 relative for float64, 1e-5 when a float32/float16 column is involved',
                'axis-1 values on object rows (bool mixed with numbers) are not judged: NumPy statistics on object rows are themselves unreliable']
 
 FUNCS = ('sum', 'prod', 'min', 'max', 'mean', 'median', 'std', 'var', 'all', 'any', 'loc_min', 'loc_max', 'iloc_min', 'iloc_max', 'cumsum', 'cumprod')
@@ -200,6 +200,12 @@ def check(case):
                 if not is_missing(g):
                     raise Failure('missing-not-propagated', '%s(axis=%d, skipna=False)[%r] = %r, NumPy propagates the missing value (line %s)' % (fn, axis, labels[q], g, short(lines[q])))
                 continue
+            if not _close(g, w, tol) and lines[q].dtype.kind == 'f' and lines[q].dtype.itemsize < 8:
+                # a narrow float line: NumPy accumulates in the narrow dtype (float16 overflows to inf at 65504, loses
+                # digits); a result computed at a wider precision is the better answer and is accepted as well
+                e64 = oracle_line(lines[q].astype(np.float64), fn, skipna, ddof)
+                if e64[0] == 'value' and _close(g, e64[1], max(tol, 1e-3)):
+                    continue
             if not _close(g, w, tol):
                 raise Failure('value', '%s(axis=%d, skipna=%s%s)[%r] = %r expected %r (line %s, dtype %s)' % (
                     fn, axis, skipna, ', ddof=%d' % ddof if fn in ('std', 'var') else '', labels[q], g, w, short(lines[q]), lines[q].dtype))
@@ -216,7 +222,17 @@ def tag(case, f):
     # (a) sum/prod/cumsum/cumprod over narrow ints or bools in a multi-block frame: the output array takes the
     # row dtype, so the value wraps (int8) or stays Boolean, where NumPy on the column alone widens to int64
     # (axis 0 only: along axis 1 sum/prod are evaluated on the consolidated array and are correct)
-    if f.kind == 'value' and fn in ('sum', 'prod', 'cumsum', 'cumprod') and narrow and len(blks) > 1 and case['axis'] == 0:
+    # ... and only when the line that differs is itself a narrow-int / Boolean column (the detail names its dtype)
+    import re
+    mline = re.search(r'dtype (\w+)\)\s*$', f.detail)
+    line_narrow = True
+    if mline:
+        try:
+            ld = np.dtype(mline.group(1))
+            line_narrow = ld.kind == 'b' or (ld.kind in 'iu' and ld.itemsize < 8)
+        except TypeError:
+            line_narrow = True
+    if f.kind == 'value' and fn in ('sum', 'prod', 'cumsum', 'cumprod') and narrow and line_narrow and len(blks) > 1 and case['axis'] == 0:
         return 'narrow-output-dtype-in-multiblock-sum-prod'
     if f.kind.startswith('raised:OverflowError') and fn in ('sum', 'prod') and narrow and case['axis'] == 0:
         return 'narrow-output-dtype-in-multiblock-sum-prod'
@@ -229,7 +245,7 @@ def tag(case, f):
     # (c) frames whose row dtype is object (bool mixed with numbers, str/datetime/object mixes): the axis-0 reduction is
     # evaluated on object rows instead of on each typed column: NaN is not propagated by min/max, comparisons raise
     kinds = {d.kind for d in dts}
-    if case['dom'] in ('D3', 'D4') and len(kinds) > 1 and (f.kind in ('missing-not-propagated', 'value') or f.kind.startswith('raised:')):
+    if case['dom'] in ('D3', 'D4') and len(kinds) > 1 and (f.kind == 'missing-not-propagated' or f.kind.startswith('raised:')):  # (a wrong *value* is not this finding)
         return 'axis0-reduction-over-object-row-dtype'
     # (e) min/max with skipna=True over a datetime64 column do not skip NaT
     if fn in ('min', 'max') and case['skipna'] and f.kind == 'value' and any(d.kind in 'mM' for d in dts) and 'NaT' in f.detail:
@@ -271,9 +287,64 @@ def check_dt_logical(case):
     return {'nt': len(widths) >= 2, 'cls': ['dt-logical:' + case['fn']]}
 
 
+# ---------------------------------------------------------------------------------------------
+# frames with a single row or a single column: every assignment of column kinds (bool / int / float, with and without
+# a NaN) x both layouts x every function x skipna x axis; the size-one short cuts of the block-wise reduction live here
+
+LINE_KINDS = ('f_nan', 'f_val', 'int', 'bool', 'f32_nan')
+
+
+def _line_col(kind, n, j):
+    if kind == 'f_nan':
+        a = np.array([2.5 + j + i for i in range(n)], dtype=np.float64)
+        a[0] = np.nan
+    elif kind == 'f_val':
+        a = np.array([1.5 + j + i for i in range(n)], dtype=np.float64)
+    elif kind == 'int':
+        a = np.array([3 + j + i for i in range(n)], dtype=np.int64)
+    elif kind == 'bool':
+        a = np.array([(i + j) % 2 == 0 for i in range(n)], dtype=bool)
+    else:
+        a = np.array([0.5 + j + i for i in range(n)], dtype=np.float32)
+        a[n - 1] = np.nan
+    return a
+
+
+def enum_lines(tier):
+    import itertools
+    shapes = [(1, 1), (1, 2), (1, 3), (2, 1), (3, 1), (2, 2)] if tier == 'quick' else [(1, 1), (1, 2), (1, 3), (1, 4), (2, 1), (3, 1), (2, 2), (2, 3)]
+    for (n, m) in shapes:
+        for kinds in itertools.product(LINE_KINDS, repeat=m):
+            for layout in ('split', 'cons'):
+                if layout == 'cons' and not any(kinds[j] == kinds[j + 1] for j in range(m - 1)) and m > 1:
+                    continue
+                for fn in FUNCS:
+                    for skipna in (True, False):
+                        for axis in (0, 1):
+                            yield {'line': True, 'n': n, 'm': m, 'kinds': kinds, 'layout': layout, 'fn': fn, 'skipna': skipna, 'axis': axis}
+
+
+def check_line(case):
+    n, m, kinds = case['n'], case['m'], case['kinds']
+    cols = [_line_col(k, n, j) for j, k in enumerate(kinds)]
+    blocks = gen.layout_consolidated(cols) if case['layout'] == 'cons' else gen.layout_split(cols)
+    has_bool = any(k == 'bool' for k in kinds)
+    others = any(k != 'bool' for k in kinds)
+    dom = 'D2' if (has_bool and not others) else ('D3' if has_bool else 'D1')
+    if dom == 'D3' and case['axis'] == 1:
+        raise Discard('axis-1 values on object rows are not judged (ASSUMPTIONS)')
+    full = {'dom': dom, 'blocks': blocks, 'n': n, 'm': m, 'fn': case['fn'], 'axis': case['axis'], 'skipna': case['skipna'], 'ddof': 0,
+            'ilabels': 'auto', 'clabels': 'str'}
+    case['blocks'], case['dom'] = blocks, dom  # for the classifier
+    info = check(full) or {}
+    return {'nt': m >= 2 or n >= 2, 'cls': ['line:%dx%d' % (n, m), 'line-dom:' + dom] + [c for c in info.get('cls', ()) if c.startswith('fn:')]}
+
+
 SUBS = [
     Sub('reduce', cases(), check, quick=12000, thorough=120000, tag=tag,
         rule='frame.f(axis, skipna) vs NumPy on each column/row alone'),
+    Sub('lines', None, check_line, quick=0, thorough=0, tag=tag, enum=enum_lines,
+        rule='complete enumeration of single-row / single-column frames over 5 column kinds, both layouts, every function, skipna, axis'),
     Sub('dt_logical', None, check_dt_logical, quick=0, thorough=0, enum=enum_dt_logical,
         rule='all/any over multi-block datetime64 frames with a primed allocator (regression probe for uninitialised results)'),
 ]
